@@ -217,14 +217,18 @@ CHECKS = {
             "params": {"quick": {"CYCLES": 2}, "thorough": {"CYCLES": 3}},
             "max_paths": {"quick": 60000, "thorough": 400000},
             "covers": {"VerifC05Reopen": ["attempt-failed", "by-address", "by-name", "reopened"]},
+        }, {
+            "pkg": ODB, "funcs": ["VerifC05Identity"],
+            "covers": {"VerifC05Identity": ["created", "restarted-same-identity", "other-directory", "in-memory", "still-open"]},
         }],
         "assumptions": [
             "history of STEPS steps on one store, each a local write (symbolic payload) or a real replication of a batch written by a remote writer (Sync -> replicator -> fetcher -> Join -> cache write -> EventReplicated)",
             "the store's block store and cache append every mutation to ONE ordered effect log; each effect is durable once its call returns (as the property assumes)",
             "acknowledgement instants: return of AddOperation, emission of EventReplicated (observed synchronously in the emitting goroutine); crash index = a symbolic integer over [0, #effects]; recovered disk = that prefix; fresh store + real Load(-1)",
+            "identity across restart (VerifC05Identity): instances are made by the PUBLIC NewOrbitDB with neither keystore nor identity given, so the real code opens the keystore datastore under <directory>/<peer id>/keystore (disk model incl. leveldb's directory lock), builds the real go-ipfs-log Keystore (real LRU cache, base64) and runs the real idp.CreateIdentity / OrbitDBIdentityProvider (GetID, signID, SignIdentity); secp256k1 key generation, (un)marshalling and signatures are symbolic stand-ins (fresh keys pairwise distinct, verify(pub(k),m,s) <=> s = sign(k,m)); same directory => same id and public key and the creator-only database is still writable; other directory / in-memory default => another identity whose write is refused; a second instance cannot open the keystore of one still open; Close releases it",
             "clean close / reopen cycles at instance level (VerifC05Reopen): a real orbitDB instance over the real cache manager (cacheleveldown) on the disk model creates a database by name, writes, closes; CYCLES times a new instance on the same directory reopens it by address or by name with Create (the path of the Log / KeyValue / Docs helpers: Create with Overwrite), optionally after an attempt that failed (DAG unreachable while the manifest is read, cancelled context, unregistered store type) and optionally an instance restart after the failure; Load(-1) must yield exactly the acknowledged entries, and a further write succeeds",
         ],
-        "outside": ["durability of leveldb / flatfs themselves, torn writes", "identity persistence across restart (keystore on leveldb is not encodable; the harness reuses the identity)", "crashes during concurrent writers (C17 decides the write path's atomicity)"],
+        "outside": ["durability of leveldb / flatfs themselves, torn writes", "real secp256k1 key generation / signatures and the on-disk format of the keystore (keys are symbolic tokens, leveldb is the disk model with its directory lock)", "crashes during concurrent writers (C17 decides the write path's atomicity)"],
     },
     "C16": {
         "groups": [{
